@@ -90,6 +90,9 @@ def main(argv):
 def run(pid, tier, seed, scratch, t0):
     p = plan.PLAN[pid]
     evidence_path = os.path.join(VERIF, 'evidence', pid + '.json')
+    if os.path.realpath(REPO) != '/repo':
+        # development runs against a scratch copy never touch the evidence of /repo
+        evidence_path = os.path.join(VERIF, 'build', 'evidence-scratch', pid + '.json')
     results = []
     undecided = []
     jobs = []
